@@ -932,9 +932,14 @@ class SBytes:
                 continue
             n = m.eval(tint(s.n), model_completion=True).as_long()
             lo = m.eval(tint(s.lo), model_completion=True).as_long()
-            for j in range(max(0, min(n, 1 << 16))):
+            # (each byte is one model evaluation: counterexamples with tens of kilobytes made model extraction the
+            # dominant cost of a run; beyond the cap the remaining bytes are filled with zeros - the lengths stay exact)
+            cap = 2048
+            for j in range(max(0, min(n, cap))):
                 v = m.eval(z3.Select(s.src.arr, z3.IntVal(lo + j)), model_completion=True)
                 out.append(v.as_long() % 256 if z3.is_int_value(v) else 0)
+            if n > cap:
+                out += bytes(min(n, 1 << 20) - cap)
         return bytes(out)
 
     # -- a few methods used by the verified code -------------------------------
